@@ -304,6 +304,57 @@ func c23(r *core.Run) {
 	r.NotDecided = "absence of leaked or dangling slabs over histories; atree's own invariants."
 	transferRemoveProtocol(r, "R1.remove")
 	r.Floor("R1.remove", 6)
+	// R1b every value kind: a transfer with remove=true removes the value's own slab on every returning path
+	containerSet := map[string]bool{"ArrayValue": true, "DictionaryValue": true, "CompositeValue": true}
+	for _, fn := range r.W.SrcFuncsIn("interpreter") {
+		if fn.Parent() != nil || fn.Name() != "Transfer" {
+			continue
+		}
+		recv := core.RecvName0(fn)
+		if recv == "" || containerSet[recv] {
+			continue
+		}
+		var rm *ssa.Parameter
+		for _, p := range fn.Params {
+			if types.Identical(p.Type(), types.Typ[types.Bool]) && rm == nil {
+				rm = p // the first bool parameter of Transfer is `remove` (the name may be blank)
+			}
+		}
+		key := core.SSAKey(fn) + ": remove=true -> RemoveReferencedSlab"
+		if rm == nil {
+			continue
+		}
+		if why, ok := transferNoSlab[recv]; ok {
+			r.OK("R1.simple", key, fn.Pos(), "reviewed: "+why)
+			continue
+		}
+		esc := core.ReachUnder(fn, []core.Assumption{{Var: core.BoolVar{Param: rm}, Val: true}}, nil, callTo(isRemoveRefSlab), isReturn)
+		r.Check(esc == nil, "R1.simple", key, fn.Pos(), "with remove=true every return passes RemoveReferencedSlab of the value's storable",
+			"a transfer with remove=true can return without removing the value's own slab (e.g. guarded by a further condition): large values taken out of a container leave an orphaned slab")
+	}
+	r.Floor("R1.simple", 40)
+	// R1c deep removal through wrappers: SomeValue.DeepRemove removes the inner value and the slab behind its storable unconditionally
+	if fn := mustFn(r, "R1.wrapper", "interpreter", "SomeValue", "DeepRemove"); fn != nil {
+		esc := core.ReachUnder(fn, nil, nil, func(in ssa.Instruction) bool {
+			c, ok := in.(ssa.CallInstruction)
+			return ok && c.Common().IsInvoke() && c.Common().Method.Name() == "DeepRemove"
+		}, isReturn)
+		r.Check(esc == nil, "R1.wrapper", "interpreter.(SomeValue).DeepRemove: inner value deep-removed on every path", fn.Pos(), "inner DeepRemove always runs", "the wrapped value is not deep-removed on some path")
+		// the slab removal may only depend on the storable being present (a nil test), not on any other condition
+		for _, c := range core.CallsTo(fn, false, isRemoveRefSlab) {
+			bad := ""
+			for _, a := range core.ControllingConds(c) {
+				bo, ok := a.Var.Call.(*ssa.BinOp)
+				if ok && (isNilC(bo.X) || isNilC(bo.Y)) {
+					continue
+				}
+				bad = "a condition other than `valueStorable != nil`"
+			}
+			r.Check(bad == "", "R1.wrapper", "interpreter.(SomeValue).DeepRemove: slab of the inner storable removed whenever present", posOf(c),
+				"guarded only by the storable's nil test", "the removal of the inner storable's slab depends on "+bad+": an overwritten optional with a large payload leaves an orphaned slab")
+		}
+	}
+	r.Floor("R1.wrapper", 2)
 	w := r.W
 	var table map[string]int
 	if r.Table("c23_remove_edges", &table) {
@@ -370,4 +421,10 @@ func genCensus(r *core.Run, name string, got map[string][]token.Pos) {
 	}
 	b, _ := json.MarshalIndent(out, "", " ")
 	_ = os.WriteFile(r.VerifDir+"/tables/"+name+".json", b, 0o644)
+}
+
+// transferNoSlab lists value kinds whose Transfer legitimately has no slab of its own to remove.
+var transferNoSlab = map[string]string{
+	"PublishedValue": "wrapper following the container pattern: copies (and then removes the old slab) only when it needs to be stored elsewhere; otherwise the value stays in place",
+	"SomeValue":      "wrapper following the container pattern: removal happens on the copy path; a resource moved within the same account keeps its slabs",
 }
